@@ -401,6 +401,18 @@ def h_methods(sx, cfg):
             if out and g.array[J + (0,)] != 0:
                 bad += 1
         sx.check("nanometre-mesh-outside-cells-are-zero", bad == 0, bad=bad)
+        # integer-dtype fields: the rotated / interpolated values are not truncated
+        mi = df.Mesh(p1=(0, 0, 0), p2=(4, 4, 4), n=(4, 4, 4))
+        fi = df.Field(mi, nvdim=3, value=(3, -4, 12), dtype=np.int64)
+        fr = df.FieldRotator(fi)
+        fr.rotate("from_matrix", [[1, 0, 0], [0, 0.8, -0.6], [0, 0.6, 0.8]], n=(4, 5, 5))
+        vals = np.array([fr.field.array[J] for J in np.ndindex(4, 5, 5)], dtype=float)
+        full = vals[np.isclose(np.linalg.norm(vals, axis=1), 13.0, rtol=1e-9)]
+        sx.check("integer-dtype-uniform-becomes-Qv", len(full) > 0 and bool(np.allclose(full, [3.0, -4 * 0.8 - 12 * 0.6, -4 * 0.6 + 12 * 0.8], rtol=1e-9)), got=str(vals[len(vals) // 2]))
+        fs = df.Field(mi, nvdim=1, value=lambda p: int(2 * p[0] - 3 * p[1] + 5 * p[2]), dtype=np.int64)
+        fr = df.FieldRotator(fs)
+        fr.rotate("from_matrix", [[0, -1, 0], [1, 0, 0], [0, 0, 1]], n=(4, 4, 4))
+        sx.check("integer-dtype-quarter-turn-equals-rotate90", bool(np.allclose(np.asarray(fr.field.array, dtype=float), np.asarray(fs.rotate90("x", "y").array, dtype=float), rtol=1e-9, atol=1e-9)))
         # default target resolution: accepted and of comparable cell volume
         fr = df.FieldRotator(f)
         fr.rotate("from_euler", seq="z", angles=0.4)
